@@ -751,6 +751,16 @@ func (s *Server) cmdSET(msg *Message) (resp.Value, commandDetails, error) {
 			if err != nil {
 				return retwerr(errInvalidArgument(slon))
 			}
+			// nan and inf parse as floats but are not coordinates
+			if math.IsNaN(y) || math.IsInf(y, 0) {
+				return retwerr(errInvalidArgument(slat))
+			}
+			if math.IsNaN(x) || math.IsInf(x, 0) {
+				return retwerr(errInvalidArgument(slon))
+			}
+			if hasZ && (math.IsNaN(z) || math.IsInf(z, 0)) {
+				return retwerr(errInvalidArgument(args[i]))
+			}
 			if !hasZ {
 				oobj = geojson.NewPoint(geometry.Point{X: x, Y: y})
 			} else {
@@ -764,7 +774,7 @@ func (s *Server) cmdSET(msg *Message) (resp.Value, commandDetails, error) {
 			for j := 0; j < 4; j++ {
 				var err error
 				vals[j], err = strconv.ParseFloat(args[i+1+j], 64)
-				if err != nil {
+				if err != nil || math.IsNaN(vals[j]) || math.IsInf(vals[j], 0) {
 					return retwerr(errInvalidArgument(args[i+1+j]))
 				}
 			}
